@@ -161,7 +161,7 @@ func (d *ddfs) run(w *World, path []Event, devs int) {
 			break
 		}
 		if step > d.maxLen {
-			if d.onEnd != nil {
+			if d.lim.Convergence {
 				// convergence mode: without ticks and faults the system must fall silent
 				d.found([]*Violation{{"C15", "falls-silent", fmt.Sprintf("the default (fault-free, tick-free) schedule is still exchanging messages after %d steps: %s", d.maxLen, w.outcome())}}, path)
 				break
